@@ -1973,7 +1973,11 @@ class SetTo(Action, HasDefaultDebugInfo):
     def debug_lookup(self, tag: DTAG):
         if tag == DTAG.NAME:
             if self.value_expr.is_literal():
-                return "set into {} {}".format(ProgramData.lookup(self.into_storage, DTAG.NAME), self.value_expr.get_literal_result())
+                try:
+                    return "set into {} {}".format(ProgramData.lookup(self.into_storage, DTAG.NAME), self.value_expr.get_literal_result())
+                except (ArithmeticError, ValueError):
+                    # a constant expression the C compiler will have to deal with (division by zero, negative shift)
+                    return "set into {}".format(ProgramData.lookup(self.into_storage, DTAG.NAME))
             else:
                 return "set into {}".format(ProgramData.lookup(self.into_storage, DTAG.NAME))
         elif tag == DTAG.STRICT_TIMING_REASON:
